@@ -5,11 +5,11 @@ package main
 
 import (
 	"fmt"
-	"sort"
-	"strings"
 	"go/types"
 	"net/url"
 	"reflect"
+	"sort"
+	"strings"
 
 	"golang.org/x/tools/go/ssa"
 )
